@@ -76,7 +76,8 @@ def pin_events(pm, q_lin, T_cool, htc, dz, t, sb=None, gapk=None,
             kg = 0.5 * (float(gk(Tfs)) + float(gk(Tci)))
             qgap = 2 * math.pi * rf * (
                 kg * (Tfs - Tci) / gdr
-                + pm.fuel['e'] * sbc * (Tfs ** 4 - Tci ** 4))
+                + getattr(pm, '_verif_emissivity', 0.9) * sbc
+                * (Tfs ** 4 - Tci ** 4))
         # shell-by-shell conduction from the reported fuel surface
         qd = q / float(pm.fuel['area'])
         Tout = Tfs
@@ -142,7 +143,13 @@ def gen_model(dassh, rng):
               'pu_frac': [rng.uniform(0, 0.3) for _ in range(nz)],
               'zr_frac': [rng.uniform(0.05, 0.2) for _ in range(nz)],
               'porosity': [rng.uniform(0, 0.3) for _ in range(nz)]}
+        # the emissivity of the fuel surface: left to its default (0.9) or
+        # given, down to a non-radiating gap (0.0)
+        em = rng.choice([None, None, 0.9, 0.5, 0.1, 0.0])
+        if em is not None:
+            fp['emissivity'] = em
         pm = dassh.PinModel(d_pin, ct, clad, fuel_params=fp, gap_mat=gap_mat)
+        pm._verif_emissivity = 0.9 if em is None else em
         kind = 'metal'
     else:
         mats = [dassh.Material(f'um{i}', coeff_dict={
@@ -151,7 +158,11 @@ def gen_model(dassh, rng):
             for i in range(nz)]
         pp = {'r_frac': r_frac, 'gap_thickness': gap_t,
               'htc_params_clad': htc_p, 'pin_material': mats}
+        em = rng.choice([None, None, 0.9, 0.5, 0.1, 0.0])
+        if em is not None:
+            pp['emissivity'] = em
         pm = dassh.PinModel(d_pin, ct, clad, pin_params=pp, gap_mat=gap_mat)
+        pm._verif_emissivity = 0.9 if em is None else em
         kind = 'user'
     return pm, {'d_pin': d_pin, 'clad_t': ct, 'gap': gap_t, 'zones': nz,
                 'r0': r0, 'kind': kind}
